@@ -492,6 +492,12 @@ fn create_syntax_binding() -> Rc<LexicalScope<Transformer>> {
     BINDINGS.with(|bindings| bindings.clone())
 }
 
+/// A fresh scope on top of the bundled syntax (begin, let, cond, ...): macros defined in it are
+/// private to its owner and never change the bundled table shared by the whole thread.
+pub fn new_syntax_environment() -> Rc<LexicalScope<Transformer>> {
+    Rc::new(LexicalScope::new_child(create_syntax_binding()))
+}
+
 impl<TokenIter: Iterator<Item = Result<Token>>> Parser<TokenIter> {
     fn from_lexer_primary_syntax(lexer: TokenIter) -> Parser<TokenIter> {
         Self {
@@ -503,10 +509,19 @@ impl<TokenIter: Iterator<Item = Result<Token>>> Parser<TokenIter> {
     }
 
     pub fn from_lexer(lexer: TokenIter) -> Parser<TokenIter> {
+        Self::from_lexer_with_syntax_env(lexer, new_syntax_environment())
+    }
+
+    /// parse with a syntax environment that outlives this parser (an interpreter keeps its macros
+    /// from one piece of source text to the next)
+    pub fn from_lexer_with_syntax_env(
+        lexer: TokenIter,
+        syntax_env: Rc<LexicalScope<Transformer>>,
+    ) -> Parser<TokenIter> {
         Self {
             current: None,
             lexer: lexer.peekable(),
-            syntax_env: create_syntax_binding(),
+            syntax_env,
             location: None,
         }
     }
